@@ -52,6 +52,7 @@ type Prog struct {
 	Funcs    map[string]*ssa.Function // short name -> function
 	AllFuncs map[*ssa.Function]bool
 	cg       *callgraph.Graph
+	cha      *callgraph.Graph
 	Files    map[string]bool // repo-relative paths of parsed module files
 }
 
@@ -145,9 +146,17 @@ func Load(cfg Config, overlay map[string][]byte) (*Prog, error) {
 // CG returns the VTA call graph (built lazily).
 func (p *Prog) CG() *callgraph.Graph {
 	if p.cg == nil {
-		p.cg = vta.CallGraph(p.AllFuncs, cha.CallGraph(p.SSA))
+		p.cg = vta.CallGraph(p.AllFuncs, p.CHA())
 	}
 	return p.cg
+}
+
+// CHA returns the class-hierarchy call graph (lazily).
+func (p *Prog) CHA() *callgraph.Graph {
+	if p.cha == nil {
+		p.cha = cha.CallGraph(p.SSA)
+	}
+	return p.cha
 }
 
 // Fn looks a function up by short name; nil if absent.
@@ -255,15 +264,26 @@ func (p *Prog) Implementors(it *types.Interface) []*types.Named {
 	return out
 }
 
-// Method returns the SSA function of method name on *T (or T).
+// Method returns the SSA function of method name on *T (or T), preferring the
+// declared method over a synthetic pointer-receiver wrapper.
 func (p *Prog) Method(nt *types.Named, name string) *ssa.Function {
+	var synth *ssa.Function
 	for _, t := range []types.Type{types.NewPointer(nt), nt} {
 		ms := p.SSA.MethodSets.MethodSet(t)
 		for i := 0; i < ms.Len(); i++ {
 			if ms.At(i).Obj().Name() == name {
-				return p.SSA.MethodValue(ms.At(i))
+				fn := p.SSA.MethodValue(ms.At(i))
+				if fn == nil {
+					continue
+				}
+				if fn.Synthetic == "" {
+					return fn
+				}
+				if synth == nil {
+					synth = fn
+				}
 			}
 		}
 	}
-	return nil
+	return synth
 }
